@@ -2,6 +2,7 @@ import Tcs.Model.History
 import Tcs.Model.Sem.Fault
 import Tcs.Model.Sem.Conc
 import Tcs.Model.Config
+import Tcs.Model.Rows
 import Tcs.Generated.ParamsImpl
 open Tcs
 
@@ -389,25 +390,26 @@ def step (ctx : Ctx) (lhs : String) (implObs : String := "") : Ctx × String :=
   | "expect" :: _ => (ctx, "")
   | ["rawload", "empty"] => ({ ctx with st := .sql {} }, "ok clients=0 versions=0")
   | "rawload" :: rows =>
-    -- decode the rows exactly as `sqlite/src/lib.rs` reads them: ids are TEXT parsed by `Uuid::parse_str`
-    let txtId (f : String) : Option Uuid :=
-      if f.startsWith "t:" then (bytesOfHexStr (f.drop 2).toString).bind fun b => parseUuid b.toList else none
+    -- the rows as stored (ids are TEXT); they are decoded by the model's `decodeDb` (Model/Rows.lean), the function
+    -- `C19_row_roundtrip` is about: ids parsed by `Uuid::parse_str`, exactly as `sqlite/src/lib.rs` reads them
+    let txtRaw (f : String) : Option (List UInt8) :=
+      if f.startsWith "t:" then (bytesOfHexStr (f.drop 2).toString).map (·.toList) else none
     let optF {α} (f : String) (g : String → Option α) : Option (Option α) := if f = "NULL" then some none else (g f).map some
-    let res : Option Sql := rows.foldlM (fun (acc : Sql) (w : String) =>
+    let raw : Option RawDb := rows.foldlM (fun (acc : RawDb) (w : String) =>
       if w.startsWith "C:" then
         match (w.drop 2).toString.splitOn "," with
         | [cid, lat, sv, since, ts, blob] => do
-          let r : ClientRow := { clientId := ← txtId cid, latest := ← txtId lat, snapVid := ← optF sv txtId,
-                                 since := ← optF since String.toNat?, ts := ← optF ts String.toInt?, snap := ← optF blob parseBlob }
+          let r : RawClientRow := { clientId := ← txtRaw cid, latest := ← txtRaw lat, snapVid := ← optF sv txtRaw,
+                                    since := ← optF since String.toNat?, ts := ← optF ts String.toInt?, snap := ← optF blob parseBlob }
           some { acc with clients := acc.clients ++ [r] }
         | _ => none
       else if w.startsWith "V:" then
         match (w.drop 2).toString.splitOn "," with
         | [vid, cid, par, blob] => do
-          some { acc with versions := acc.versions ++ [⟨← txtId vid, ← txtId cid, ← txtId par, ← parseBlob blob⟩] }
+          some { acc with versions := acc.versions ++ [⟨← txtRaw vid, ← txtRaw cid, ← txtRaw par, ← parseBlob blob⟩] }
         | _ => none
-      else none) ({} : Sql)
-    match res with
+      else none) ({} : RawDb)
+    match raw.bind decodeDb with
     | some s => ({ ctx with st := .sql s }, s!"ok clients={s.clients.length} versions={s.versions.length}")
     | none => (ctx, "decode-error")
   | "dump" :: c :: rest =>
